@@ -635,16 +635,57 @@ def translate(fname, names):
             raise Unsupported(f"{name}: default values changed")
         if node.decorator_list: raise Unsupported(f"{name}: decorators")
         parts += translate_one(spec, node, "py_" + name)
+        parts += wrapper(spec)
     return "\n".join(parts)
 
+def wrapper(spec):
+    """the public method SuccessionDiagram.<name>: must be `return <name>(self, <its parameters>)`; translated as a call of py_<name>
+    with the arguments in the order in which the method passes them"""
+    name = spec["name"]
+    mod = ast.parse(open(os.path.join(REPO, "biobalm/succession_diagram.py")).read())
+    cls = [n for n in mod.body if isinstance(n, ast.ClassDef) and n.name == "SuccessionDiagram"]
+    if len(cls) != 1: raise Unsupported("class SuccessionDiagram not found exactly once")
+    ms = [n for n in cls[0].body if isinstance(n, ast.FunctionDef) and n.name == name]
+    if len(ms) != 1: raise Unsupported(f"method SuccessionDiagram.{name} not found exactly once")
+    m = ms[0]
+    a = m.args
+    if a.vararg or a.kwarg or a.kwonlyargs or a.posonlyargs or m.decorator_list or not a.args or a.args[0].arg != "self":
+        raise Unsupported(f"SuccessionDiagram.{name}: signature")
+    params = [x.arg for x in a.args[1:]]
+    if len(params) != len(spec["args"]): raise Unsupported(f"SuccessionDiagram.{name}: number of parameters")
+    # defaults: the method's defaults must be those of the table (None, or as listed for the function; a parameter the function
+    # requires positionally gets None here)
+    got = dict(zip([x.arg for x in a.args][len(a.args) - len(a.defaults):], a.defaults))
+    for (pname, (fname, _)) in zip(params, spec["args"]):
+        want = (spec.get("defaults") or {}).get(fname, None)
+        if pname not in got:
+            if spec["args"][0][0] == fname and spec["args"][0][1] == "space": continue          # required positional (target)
+            raise Unsupported(f"SuccessionDiagram.{name}: parameter {pname} has no default")
+        if not (isinstance(got[pname], ast.Constant) and got[pname].value is want): raise Unsupported(f"SuccessionDiagram.{name}: default of {pname}")
+    body = [b for b in m.body if not (isinstance(b, ast.Expr) and isinstance(b.value, ast.Constant) and isinstance(b.value.value, str))]
+    ok = len(body) == 1 and isinstance(body[0], ast.Return) and isinstance(body[0].value, ast.Call) and isinstance(body[0].value.func, ast.Name) \
+        and body[0].value.func.id == name and not body[0].value.keywords and len(body[0].value.args) == len(params) + 1 \
+        and isinstance(body[0].value.args[0], ast.Name) and body[0].value.args[0].id == "self" \
+        and all(isinstance(x, ast.Name) and x.id in params for x in body[0].value.args[1:])
+    if not ok: raise Unsupported(f"SuccessionDiagram.{name}: body is not `return {name}(self, ...)`")
+    passed = [x.id for x in body[0].value.args[1:]]
+    sig = " ".join(f"({pn} : {COQ_TY[t]})" for pn, (_, t) in zip(params, spec["args"]))
+    tape = "(tape : list space) " if spec.get("tape") else ""
+    return [f"(* biobalm/succession_diagram.py: def SuccessionDiagram.{name}(self, {', '.join(params)}) *)",
+            f"Definition py_api_{name} (fuel : nat) (N : net) (cfg : config) (sd_ : sd) {tape}{sig} : sd * result :=",
+            f"  py_{name} fuel N cfg sd_ {'tape ' if spec.get('tape') else ''}{' '.join(passed)}.", ""]
+
 def main(argv):
-    try:
-        texts = [(os.path.join(OUTDIR, f), translate(f, names)) for f, names in GROUPS]
-    except Unsupported as e:
-        print("py2coq_sd: UNSUPPORTED: " + str(e), file=sys.stderr)
-        return 2
+    texts, failed = [], []
+    for f, names in GROUPS:
+        try:
+            texts.append((os.path.join(OUTDIR, f), translate(f, names)))
+        except Unsupported as e:
+            # fail closed per generated file: the old text stays, the properties that import this file are told
+            print(f"py2coq_sd: FAILED {f}: UNSUPPORTED: {e}", file=sys.stderr)
+            failed.append(f)
     if len(argv) > 1 and argv[1] == "--check":
-        same = all(os.path.exists(o) and open(o).read() == t for o, t in texts)
+        same = not failed and all(os.path.exists(o) and open(o).read() == t for o, t in texts)
         print("unchanged" if same else "CHANGED")
         return 0 if same else 1
     for o, t in texts:
@@ -653,7 +694,7 @@ def main(argv):
         else:
             open(o, "w").write(t)
             print("wrote", os.path.normpath(o))
-    return 0
+    return 2 if failed else 0
 
 if __name__ == "__main__":
     sys.exit(main(sys.argv))
